@@ -15,6 +15,7 @@ EXTENDS Naturals, Sequences, FiniteSets, TLC
 CONSTANTS Fam,        \* families of the session (all are negotiated as address families)
           RouteIds,   \* route identifiers per family (prefix + path-id)
           Reasons,    \* session-end reason classes explored
+          Comms,      \* subset of BOOLEAN: whether announcements carrying the LLGR_STALE community are explored
           Dev
 
 VARIABLE s
@@ -38,7 +39,9 @@ Eligible(reason, nbit) ==
 \* LLGR follows GR, and additionally applies to a plain I/O loss without GR
 LlgrEligible(reason, grOk) == grOk \/ reason = "io"
 
-Route == [x : RouteIds, st : BOOLEAN, ll : BOOLEAN, n : BOOLEAN]
+\* n: the route carries NO_LLGR;  c: the route carries the LLGR_STALE community as received (the peer relays a route
+\* that is stale further upstream) - that is the ROUTE's business, not a mark this helper put on it
+Route == [x : RouteIds, st : BOOLEAN, ll : BOOLEAN, n : BOOLEAN, c : BOOLEAN]
 NoGr == [st |-> "Idle", fams |-> {}, llgr |-> {}, fl |-> FALSE]
 
 Init ==
@@ -50,7 +53,7 @@ Init ==
 
 Ops ==      [k : {"connect", "fail", "timer"}]
        \cup [k : {"establish"}, gr : SUBSET Fam, llgr : SUBSET Fam, nbit : BOOLEAN]
-       \cup [k : {"announce"}, f : Fam, x : RouteIds, n : BOOLEAN]
+       \cup {[k |-> "announce", f |-> f, x |-> x, n |-> n, c |-> c] : f \in Fam, x \in RouteIds, n \in BOOLEAN, c \in Comms}
        \cup [k : {"withdraw"}, f : Fam, x : RouteIds]
        \cup [k : {"eor", "llgrtimer"}, f : Fam]
        \cup [k : {"drop"}, reason : Reasons]
@@ -143,7 +146,7 @@ Step(st, op) ==
                                !.rt = FALSE]           \* the driver cancels the restart timer first
          IN Glue(st1, MEstablished(st.gr, op.gr), FALSE)
     [] op.k = "announce" ->
-         [st EXCEPT !.routes[op.f] = {r \in @ : r.x # op.x} \cup {[x |-> op.x, st |-> FALSE, ll |-> FALSE, n |-> op.n]}]
+         [st EXCEPT !.routes[op.f] = {r \in @ : r.x # op.x} \cup {[x |-> op.x, st |-> FALSE, ll |-> FALSE, n |-> op.n, c |-> op.c]}]
     [] op.k = "withdraw" -> [st EXCEPT !.routes[op.f] = {r \in @ : r.x # op.x}]
     [] op.k = "eor" ->
          IF st.sess.gr # {} THEN Glue(st, MEor(st.gr, op.f), FALSE) ELSE st
